@@ -1,6 +1,6 @@
 \* intended design: all call sequences <= 5 (VIEW hides the history), all four cache configurations
 CONSTANTS
-  Objs = {1, 2, 3, 8, 9}
+  Objs = {1, 2, 3, 8, 9, 10}
   Types = {"P", "D", "VM", "VR"}
   TypesOf <- MC_TypesOf
   Loads <- MC_Loads
